@@ -255,3 +255,20 @@ def nx_has_path(g, a, b):
 
 def nx_is_dag(g: SymDiGraph):
     return wrap(g.is_acyclic_guard())
+
+
+def nx_all_simple_paths(g, source, target, cutoff=None):
+    """All simple paths source -> target of the complete graph on U, each guarded by its edges being present."""
+    record_raise(bnot(g.node[source]), "NodeNotFound", f"source node {source} not in graph")
+    record_raise(bnot(g.node[target]), "NodeNotFound", f"target node {target} not in graph")
+    if source == target:
+        return SList([])
+    others = [v for v in g.U if v not in (source, target)]
+    out = []
+    for k in range(len(others) + 1):
+        if cutoff is not None and k + 1 > cutoff:
+            break
+        for mid in itt.permutations(others, k):
+            path = (source, *mid, target)
+            out.append((band(*[g.e(u, v) for u, v in zip(path, path[1:])]), list(path)))
+    return SList(out)
